@@ -418,6 +418,24 @@ def r12_no_borrowed_names(ctx):
     ctx.R.floor("C13.R12", n, 40, "deserialisation sites in types/core")
 
 
+def r13_merge_succeeds_only_after_checking_every_name(ctx):
+    """`merging a module that shares any name fails`: Methods::merge reports success only after it has walked the other
+    module's names through verify_method_name - every path from its entry to an `Ok(())` passes the name loop (a shortcut
+    `the other module is my own clone, nothing to do` returns Ok for a merge in which *every* name is shared)."""
+    F, R = ctx.F, ctx.R
+    b = F.one(r"^jsonrpsee_core::server::rpc_module::Methods::merge$")
+    R.fn(b)
+    oks = {bi for bi, blk in enumerate(b.blocks) if bi in b.reachable for st in blk["st"] if st["s"] == "assign" and st["pl"]["l"] == 0 and not st["pl"].get("p") and st["rv"]["k"] == "agg" and st["rv"].get("variant") == "Ok"}
+    ver = b.calls_to(r"Methods::verify_method_name$")
+    if not ver or not oks:
+        raise AnchorLost("verify_method_name loop / Ok return of Methods::merge")
+    loops = {nx.bb for nx in [enclosing_loop_next(b, v.bb) for v in ver] if nx is not None}
+    if not loops:
+        raise AnchorLost("the loop over the other module's names in Methods::merge")
+    ok = all(flow.all_paths_pass(b, 0, loops, {o}) and o != 0 for o in oks)
+    R.check(ok, "C13.R13", "merge:ok-only-after-name-loop", "merge returns Ok only after the name loop", "Methods::merge can return Ok(()) without having checked the other module's names (a path from its entry reaches `Ok` around the verify loop): merging a module that shares names - e.g. a clone of itself - is reported as a success", "%s:%d" % (b.file, b.lo))
+
+
 SILENT = r"hash_map::Entry::<.*>::(or_insert|or_insert_with|or_insert_with_key|or_default|and_modify|insert_entry)$|hash_map::OccupiedEntry::<.*>::(insert|get_mut|into_mut|remove|remove_entry)$|HashMap::<.*>::(get_mut|values_mut|iter_mut|retain|clear|get_many_mut|get_disjoint_mut)$|Extend<.*>>::extend$|HashMap::<.*>::extend$"
 
 
@@ -465,7 +483,7 @@ def rgen_generated_registrations(ctx):
     return c17.w_rules(ctx)
 
 
-LIB_RULES = [r1_insert_after_verify, r2_all_or_nothing, r3_copy_on_write, r4_dispatch_and_remove, r5_not_found_iff_unbound, r6_sibling_registrars, r7_names_spelled_alike, r8_insert_fails_only_as_prechecked, r9_no_silent_table_writes, r10_lookup_is_one_exact_map_access, r11_taken_means_is_a_key, r12_no_borrowed_names]
+LIB_RULES = [r1_insert_after_verify, r2_all_or_nothing, r3_copy_on_write, r4_dispatch_and_remove, r5_not_found_iff_unbound, r6_sibling_registrars, r7_names_spelled_alike, r8_insert_fails_only_as_prechecked, r9_no_silent_table_writes, r10_lookup_is_one_exact_map_access, r11_taken_means_is_a_key, r12_no_borrowed_names, r13_merge_succeeds_only_after_checking_every_name]
 CONFIGS_QUICK = ["libs-all", "corpus"]
 CONFIGS_THOROUGH = ["libs-all", "facade-full", "corpus"]
 
